@@ -56,7 +56,7 @@ def sym_of(consts):
 def conv_obs(o, maxh):
     return {"mh": o["mh"], "mr": o["mr"], "chain": list(o["chain"]), "sh": o["sh"], "sr": o["sr"],
             "fin": ["%d:%s" % (i + 1, v) for i, v in enumerate(o["fin"])],
-            "timer": "*" if o["sh"] > maxh else o["timer"], "lockV": o["lockV"], "lockR": o["lockR"],
+            "timer": "*" if (o["sh"] > maxh or o.get("beyond")) else o["timer"], "lockV": o["lockV"], "lockR": o["lockR"],
             "acts": sorted("%s/%d/%d/%s" % (a["k"], a["h"], a["r"], a["v"]) for a in o["acts"])}
 
 
@@ -103,6 +103,67 @@ def emitted(ctx, res, consts, cls=None):
         if k not in seen:
             seen.add(k)
             out.append(cb)
+    return out
+
+
+# ---------------------------------------------------------------- attack schedules exported earlier
+
+ATTACKS = os.path.join(vlib.SPEC, "Network_attacks.ndjson")
+WEAK = [("mirror commits below 2/3", {"WeakMirror": 1}), ("state machine finalizes below 2/3", {"WeakSM": 1}),
+        ("the power of all precommits taken for the power of the most voted block", {"AnyTarget": "TRUE"}),
+        ("votes accepted without a valid signature", {"Forge": "TRUE", "ByzOne": "FALSE"}),
+        ("commit threshold one vote", {"WeakMirror": 2, "WeakSM": 2}),
+        ("mirror and state machine commit below 2/3", {"WeakMirror": 1, "WeakSM": 1})]
+
+
+def spec_sha():
+    h = hashlib.sha1()
+    for f in ("Network.tla", "NetworkMC.tla"):
+        h.update(open(os.path.join(vlib.SPEC, f), "rb").read())
+    return h.hexdigest()
+
+
+def load_attacks(ctx):
+    """counterexamples of the weakened model variants exported by `VERIF_C03_REGEN=1 bin/check C03` (breadth-first
+    searches that do not fit the quick tier); ignored when the spec has changed since."""
+    if not os.path.exists(ATTACKS):
+        return []
+    lines = open(ATTACKS).read().splitlines()
+    head = json.loads(lines[0])
+    if head.get("spec_sha") != spec_sha() or head.get("restart_resumes") != BASE["RestartResumes"]:
+        ctx.log("stored attack schedules are for another version of the spec: not used")
+        return []
+    return [json.loads(l) for l in lines[1:]]
+
+
+def regen_attacks(ctx):
+    """exports, for every weakened variant, the shortest counterexamples TLC finds breadth-first within a time bound"""
+    import subprocess
+    out = []
+    for i, (name, w) in enumerate(WEAK):
+        consts = dict({"MaxH": 1, "MaxR": 1, "ByzNil": "FALSE", "ByzOne": "TRUE"}, **w)
+        cfg = write_cfg(ctx, "regen-%d.cfg" % i, consts, ["EmitCex"], symmetry=sym_of(consts))
+        wd = os.path.dirname(ctx.path("regen-%d" % i, "x"))
+        for f in os.listdir(vlib.SPEC):
+            if f.endswith(".tla"):
+                shutil.copy(os.path.join(vlib.SPEC, f), wd)
+        shutil.copy(cfg, wd)
+        cmd = ["timeout", "420", "java", "-XX:+UseParallelGC", "-Xss64m", "-DTLA-Library=/opt/veriftools/tlapm/lib/tlapm/stdlib",
+               "-cp", "/opt/veriftools/tla/tla2tools.jar:/opt/veriftools/tla/CommunityModules-deps.jar", "tlc2.TLC",
+               "-metadir", os.path.join(wd, "meta"), "-workers", "16", "-config", os.path.basename(cfg), "NetworkMC.tla"]
+        p = subprocess.run(cmd, cwd=wd, stdout=subprocess.PIPE, stderr=subprocess.STDOUT, text=True)
+        res = {"lines": p.stdout.splitlines()}
+        behs = emitted(ctx, res, consts, "attack")
+        for b in behs:
+            b["variant"] = name
+            b["forge"] = w.get("Forge") == "TRUE"
+        behs.sort(key=lambda b: len(b["steps"]))
+        ctx.log("regen: %s: %d counterexamples (rc=%s), keeping %d" % (name, len(behs), p.returncode, min(len(behs), 12)))
+        out += behs[:12]
+    with open(ATTACKS, "w") as f:
+        f.write(json.dumps({"spec_sha": spec_sha(), "restart_resumes": BASE["RestartResumes"], "n": len(out)}) + "\n")
+        for b in out:
+            f.write(json.dumps(b) + "\n")
     return out
 
 
@@ -240,81 +301,106 @@ def run(ctx):
     ctx.log("probe: a restarted engine %s its state machine at height 1" % ("resumes" if resumes else "does not resume (as-is)"))
     cl.records, cl.deaths, cl.summary = [], [], {"runs": 0, "distinct_states": 0, "ops": {}}
 
-    # ---- 1. TLC: exhaustive design checks
-    INV = ["Agreement", "Contiguous", "TypeOK", "OneVotePerRound", "PrecommitBacked", "CommitImpliesCert"]
-    if q:
-        designs = [("H1 R0 all Byzantine messages, equal powers", {"MaxR": 0}, 600),
-                   ("H1 R0 one restart, equal powers", {"MaxR": 0, "MaxRestarts": 1, "ByzNil": "FALSE", "ByzOne": "TRUE"}, 600)]
-    else:
-        designs = [("H1 R0 all Byzantine messages, equal powers", {"MaxR": 0}, 900),
-                   ("H1 R0 all Byzantine messages, powers 2,1,1,1", {"MaxR": 0, "P1": 2}, 1500),
-                   ("H1 R0 two restarts", {"MaxR": 0, "MaxRestarts": 2, "ByzNil": "FALSE", "ByzOne": "TRUE"}, 1500),
-                   ("H1 R0..1 one Byzantine vote per kind/round shown to a node, no Byzantine nil votes", {"MaxR": 1, "ByzNil": "FALSE", "ByzOne": "TRUE"}, 2400)]
-    design_cov, cex_behs = [], []
-    for name, consts, tmo in designs:
-        cfg = write_cfg(ctx, "design-%d.cfg" % len(design_cov), consts, ["EmitCex"] + INV, symmetry=sym_of(consts))
-        t0 = time.time()
-        res = ctx.tlc("NetworkMC", os.path.basename(cfg), copy={cfg: os.path.basename(cfg)}, timeout=tmo, allow_violation=True)
-        cex = None
-        if res["violated"]:
-            m = re.search(r"Error: Invariant (\w+) is violated", res["out"])
-            cex = m.group(1) if m else "?"
-            cex_behs += emitted(ctx, res, consts, "cex")
-        design_cov.append({"config": name, "distinct_states": res.get("distinct", 0), "generated": res.get("states", 0),
-                           "wall_s": round(time.time() - t0, 1), "design_counterexample": cex})
-        ctx.log("TLC %s: %d distinct / %d generated states in %.0fs%s" % (name, res.get("distinct", 0), res.get("states", 0), time.time() - t0,
-                                                                          (", counterexample for " + cex) if cex else ""))
+    if os.environ.get("VERIF_C03_REGEN"):
+        n = len(regen_attacks(ctx))
+        ctx.log("%d attack schedules written to %s" % (n, ATTACKS))
+    stored = load_attacks(ctx)
 
-    # ---- 2. TLC: behaviours for replay (simulation of the design)
+    # ---- 1-3. TLC: exhaustive design checks; behaviours for replay (simulation of the design); attack schedules
+    #           (= counterexamples of deliberately weakened variants of the model).  All jobs run concurrently.
+    INV = ["Agreement", "Contiguous", "TypeOK", "OneVotePerRound", "PrecommitBacked", "CommitImpliesCert"]
+    one = {"ByzNil": "FALSE", "ByzOne": "TRUE"}
+    if q:
+        designs = [("H1 R0, every Byzantine message, powers 1,1,1,1", {"MaxR": 0}, 600),
+                   ("H1 R0, every Byzantine message, powers 2,1,1,1", {"MaxR": 0, "P1": 2}, 600),
+                   ("H1 R0, one restart, Byzantine proposals and precommits", dict(one, MaxR=0, MaxRestarts=1, ByzKinds='{"prop", "pc"}'), 600)]
+    else:
+        designs = [("H1 R0, every Byzantine message, powers 1,1,1,1", {"MaxR": 0}, 900),
+                   ("H1 R0, every Byzantine message, powers 2,1,1,1", {"MaxR": 0, "P1": 2}, 900),
+                   ("H1 R0, one restart, one Byzantine vote per kind and round shown to a node", dict(one, MaxR=0, MaxRestarts=1), 1800),
+                   ("H1 R0..1, one Byzantine vote per kind and round shown to a node, no Byzantine nil votes", dict(one, MaxR=1), 2700)]
     sims = [({"MaxH": 1, "MaxR": 1, "MaxRestarts": 1, "MaxLen": 18, "EmitAll": "TRUE"}, 20, 30 if q else 150),
-            ({"MaxH": 2, "MaxR": 1, "MaxLen": 30, "EmitAll": "TRUE"}, 34, 40 if q else 200),
+            ({"MaxH": 2, "MaxR": 1, "MaxLen": 30, "EmitAll": "TRUE"}, 34, 30 if q else 200),
             ({"MaxH": 2, "MaxR": 1, "P1": 2, "MaxRestarts": 1, "MaxLen": 24, "EmitAll": "TRUE"}, 28, 20 if q else 120)]
-    sim_behs = []
+    weak = WEAK[:5]
+    nd = len(designs)
+
+    def design(i):
+        name, consts, tmo = designs[i]
+        cfg = write_cfg(ctx, "design-%d.cfg" % i, consts, ["EmitCex"] + INV, symmetry=sym_of(consts))
+        t0 = time.time()
+        res = ctx.tlc("NetworkMC", os.path.basename(cfg), copy={cfg: os.path.basename(cfg)}, timeout=tmo, allow_violation=True,
+                      workers=4 if q else 7)
+        return ("design", name, consts, res, time.time() - t0)
 
     def simulate(i):
         consts, depth, num = sims[i]
         cfg = write_cfg(ctx, "sim-%d.cfg" % i, consts, ["Emit"], view=False)
         res = ctx.tlc("NetworkMC", os.path.basename(cfg), copy={cfg: os.path.basename(cfg)}, simulate="num=%d" % num, depth=depth,
                       extra=["-seed", str(ctx.seed * 100 + i)], workers=1, timeout=900)
-        return emitted(ctx, res, consts)
-    with concurrent.futures.ThreadPoolExecutor(max_workers=3) as ex:
-        for behs in ex.map(simulate, range(len(sims))):
-            behs.sort(key=lambda b: -len(b["steps"]))
-            head = behs[: (60 if q else 600)]
-            rnd.shuffle(head)
-            sim_behs += head[: (40 if q else 400)]
+        return ("sim", emitted(ctx, res, consts))
+
+    def attack_bfs(i):
+        # the shortest counterexample (breadth first, bounded in time: none within the bound is fine)
+        name, w = weak[i]
+        consts = dict({"MaxH": 1, "MaxR": 1, "ByzNil": "FALSE", "ByzOne": "TRUE"}, **w)
+        cfg = write_cfg(ctx, "weak-%d.cfg" % i, consts, ["EmitCex", "Agreement", "Contiguous"], symmetry=sym_of(consts))
+        try:
+            res = ctx.tlc("NetworkMC", os.path.basename(cfg), copy={cfg: os.path.basename(cfg)}, timeout=50 if q else 400, allow_violation=True, workers=2)
+            got = emitted(ctx, res, consts, "attack")[:4]
+            for b in got:
+                b["forge"] = w.get("Forge") == "TRUE"
+            return ("attack", name, got)
+        except vlib.Inconclusive:
+            return ("attack", name, [])
+
+    def attack_sim(i):
+        name, w = weak[i]
+        consts = dict({"MaxH": 1, "MaxR": 1, "ByzNil": "FALSE", "MaxLen": 24, "EmitAll": "TRUE"}, **w)
+        cfg = write_cfg(ctx, "weaksim-%d.cfg" % i, consts, ["Emit"], view=False)
+        res = ctx.tlc("NetworkMC", os.path.basename(cfg), copy={cfg: os.path.basename(cfg)}, simulate="num=%d" % (30 if q else 300), depth=26,
+                      extra=["-seed", str(ctx.seed * 100 + 50 + i)], workers=1, timeout=900)
+        more = [b for b in emitted(ctx, res, consts, "attack") if violates(b)]
+        for b in more:
+            b["forge"] = w.get("Forge") == "TRUE"
+        random.Random(ctx.seed + i).shuffle(more)
+        return ("attack", name, more[: (6 if q else 60)])
+
+    jobs = [(design, i) for i in range(nd)] + [(simulate, i) for i in range(len(sims))]
+    jobs += [(attack_sim, i) for i in range(len(weak))] + [(attack_bfs, i) for i in range(len(weak))]
+    design_cov, cex_behs, sim_behs, attack_behs, weak_n = [], [], [], [], {name: 0 for name, _ in weak}
+    with concurrent.futures.ThreadPoolExecutor(max_workers=9 if q else 8) as ex:
+        futs = [ex.submit(fn, i) for fn, i in jobs]
+        for f in futs:
+            r = f.result()
+            if r[0] == "design":
+                _, name, consts, res, wall = r
+                cex = None
+                if res["violated"]:
+                    m = re.search(r"Error: Invariant (\w+) is violated", res["out"])
+                    cex = m.group(1) if m else "?"
+                    cex_behs += emitted(ctx, res, consts, "cex")
+                design_cov.append({"config": name, "distinct_states": res.get("distinct", 0), "generated": res.get("states", 0),
+                                   "wall_s": round(wall, 1), "design_counterexample": cex})
+                ctx.log("TLC %s: %d distinct / %d generated states in %.0fs%s" % (name, res.get("distinct", 0), res.get("states", 0), wall,
+                                                                                  (", counterexample for " + cex) if cex else ""))
+            elif r[0] == "sim":
+                behs = r[1]
+                behs.sort(key=lambda b: -len(b["steps"]))
+                head = behs[: (60 if q else 600)]
+                rnd.shuffle(head)
+                sim_behs += head[: (40 if q else 400)]
+            else:
+                weak_n[r[1]] += len(r[2])
+                attack_behs += r[2]
+    have = {beh_key(b) for b in attack_behs}
+    for b in stored:
+        if beh_key(b) not in have:
+            attack_behs.append(b)
+            weak_n[b.get("variant", "?")] = weak_n.get(b.get("variant", "?"), 0) + 1
+    weak_cov = [{"variant": k, "counterexample_schedules": v} for k, v in weak_n.items()]
     if len(sim_behs) < 20:
         raise vlib.Inconclusive("TLC simulation produced only %d behaviours" % len(sim_behs))
-
-    # ---- 3. TLC: attack schedules = counterexamples of weakened variants of the model
-    weak = [("mirror commits below 2/3", {"WeakMirror": 1}), ("state machine finalizes below 2/3", {"WeakSM": 1}),
-            ("precommits counted for another block", {"AnyTarget": "TRUE"}), ("votes accepted without a valid signature", {"Forge": "TRUE", "ByzOne": "FALSE"}),
-            ("commit threshold one vote", {"WeakMirror": 2, "WeakSM": 2}),
-            ("mirror commits below 2/3, heavy validator", {"WeakMirror": 1, "P1": 2})]
-    attack_behs, weak_cov = [], []
-
-    def attack(i):
-        name, w = weak[i]
-        got = []
-        # (a) the shortest counterexample
-        consts = dict({"MaxH": 1, "MaxR": 1, "ByzNil": "FALSE"}, **w)
-        cfg = write_cfg(ctx, "weak-%d.cfg" % i, consts, ["EmitCex", "Agreement", "Contiguous"], symmetry=sym_of(consts))
-        res = ctx.tlc("NetworkMC", os.path.basename(cfg), copy={cfg: os.path.basename(cfg)}, timeout=900, allow_violation=True, workers=4)
-        got += emitted(ctx, res, consts, "attack")[:4]
-        # (b) random ones
-        consts2 = dict(consts, MaxLen=24, EmitAll="TRUE")
-        cfg2 = write_cfg(ctx, "weaksim-%d.cfg" % i, consts2, ["Emit"], view=False)
-        res2 = ctx.tlc("NetworkMC", os.path.basename(cfg2), copy={cfg2: os.path.basename(cfg2)}, simulate="num=%d" % (40 if q else 300), depth=26,
-                       extra=["-seed", str(ctx.seed * 100 + 50 + i)], workers=1, timeout=900)
-        more = [b for b in emitted(ctx, res2, consts2, "attack") if violates(b)]
-        rnd2 = random.Random(ctx.seed + i)
-        rnd2.shuffle(more)
-        got += more[: (6 if q else 60)]
-        return name, res["violated"], got
-    with concurrent.futures.ThreadPoolExecutor(max_workers=4) as ex:
-        for name, found, got in ex.map(attack, range(len(weak))):
-            weak_cov.append({"variant": name, "counterexample_found": bool(found), "schedules": len(got)})
-            attack_behs += got
     ctx.log("behaviours: %d simulated, %d design counterexamples, %d attack schedules from weakened variants" % (len(sim_behs), len(cex_behs), len(attack_behs)))
 
     # ---- 4. replay on the real engines
@@ -371,7 +457,12 @@ def run(ctx):
                     cur.append(e)
     if tv_events == 0:
         raise vlib.Inconclusive("no trace events recorded")
-    rt = ctx.tlc("NetworkTrace", "Network_trace.cfg", workers=1, timeout=1500, copy={tpath: "trace.ndjson"}, allow_violation=True)
+    try:
+        rt = ctx.tlc("NetworkTrace", "Network_trace.cfg", workers=1, timeout=1500, copy={tpath: "trace.ndjson"}, allow_violation=True)
+    except vlib.Inconclusive as e:
+        if "TraceDone" not in str(e):
+            raise
+        rt = {"violated": False, "out": str(e), "lines": str(e).splitlines()}
     trace_ok = not rt["violated"] and "No error has been found" in rt["out"]
     if rt["violated"]:
         m = re.search(r"Error: Invariant (\w+) is violated", rt["out"])
